@@ -16,7 +16,11 @@ from harness import common
 from harness.common import Failure, lean_run
 
 PROP_MODULES = ["ArmiVerif.Props.C14"]
-PARTIAL = ("names are identified with the objects they resolve to in the model (string renaming by Assembly.renumber is "
+PARTIAL = ("block-level lookup theorems cover (a) histories with stationary blocks, tracking on, no purge "
+           "(blocks_found_run_partial) and (b) arbitrary histories incl. purges when no stationary block is involved "
+           "(blocks_run_with_purge: found and nothing else found); stationary blocks combined with purging, and a fresh "
+           "assembly carrying stationary blocks (finding), are covered by correspondence + oracle only; "
+           "names are identified with the objects they resolve to in the model (string renaming by Assembly.renumber is "
            "checked by the oracle only); SFP cell coordinates, numMoves / lastLocationLabel bookkeeping and the "
            "symmetry-factor rescaling of volume-integrated parameters on moves are not modelled")
 ASSUMPTIONS = [
@@ -238,6 +242,40 @@ def gen_op(w, rng, allow_fresh):
     return ("swap", a, b)
 
 
+def op_shape(w, op, exc):
+    """(operation kind and flags, shape of the state it acted on): what makes two evaluated operations different
+    cases for the evidence count - which cells are special (centre / symmetry line), how many stationary blocks
+    change assembly, where the incoming assembly comes from, pool size class, outcome."""
+    k = op[0]
+    outcome = "ok" if exc is None else type(exc).__name__
+    pool = min(len(w.sfp), 6)
+    ncore = len(w.core)
+
+    def special(a):
+        try:
+            c = cell_of(a)
+        except Exception:
+            return "detached"
+        if c == (0, 0):
+            return "centre"
+        if (c[0] > 0 and c[0] == -2 * c[1]) or (c[0] == c[1] and c[0] > 0):
+            return "line"
+        return "plain"
+
+    def nstat(a):
+        return sum(1 for b in a if w.is_stat(b))
+
+    if k == "swap":
+        return (k, tuple(sorted([special(op[1]), special(op[2])])), (nstat(op[1]), nstat(op[2])), outcome, pool, ncore)
+    if k == "cascade":
+        return (k, len(op[1]), tuple(sorted(special(a) for a in op[1])), tuple(nstat(a) for a in op[1]), outcome, pool, ncore)
+    if k in ("dnew", "dsfp"):
+        return (k, nstat(op[1]), special(op[2]), nstat(op[2]), op[2].getType(), outcome, pool, ncore)
+    if k == "remove":
+        return (k, bool(op[2]), special(op[1]), op[1].getType(), outcome, pool, ncore)
+    return (k, tuple(op[2]), op[1].getType(), outcome, pool, ncore)
+
+
 def op_line(w, op):
     k = op[0]
     if k == "swap":
@@ -311,9 +349,12 @@ def run_sequence(ctx, track, stat, nops, seed, compare=True):
         op = gen_op(w, rng, allow_fresh)
         line = op_line(w, op)
         before = w.canon()
+        shape_before = op_shape(w, op, None)
         exc = apply_op(w, op)
         tag = "op %d: %s" % (k, line if len(line) < 120 else line[:117] + "...")
         ctx.count("op " + op[0] + (" (raised)" if exc is not None else ""))
+        ctx.distinct.add(("op",) + shape_before[:-3] + ("ok" if exc is None else type(exc).__name__,)
+                         + shape_before[-2:] + (track, stat))
         req.append(line)
         if exc is not None and op[0] == "cascade" and isinstance(exc, ValueError):
             # a cascade is a loop of swaps: the swaps before the refused one stay done
@@ -439,7 +480,10 @@ def run(ctx):
                 "assembly, removeAssembly discharge/purge, add at an empty cell) on the reference core (73 assemblies, "
                 "pool of 4), trackAssems on/off, stationary flags [] / [GRID_PLATE] / [FUEL] / [GRID_PLATE, PLENUM] (the last two make some swaps raise); "
                 "excluded points (F11 a/b, fresh discharge with stationary blocks) run separately. distinct = distinct "
-                "(settings, seed, length); every op compares the whole canonical state.")
+                "(operation kind and flags, tracking/stationary setting, state shape) triples, where state shape = which of "
+                "the touched cells are centre / symmetry-line / plain, number of stationary blocks per touched assembly, "
+                "assembly type, origin of the incoming assembly, pool size class, core size, outcome (ok / exception "
+                "class), plus one entry per distinct operation sequence; every op compares the whole canonical state.")
 
 
 def search(ctx, disagreements, broken):
